@@ -434,7 +434,7 @@ pub fn run(ctx: &Ctx) -> PropResult {
     let out = run_workloads(ctx, wls);
     let mut meta = PropMeta::default();
     meta.rule = format!(
-        "files: the vendored IANA corpus ({} fat + slim files, de-duplicated; a seed-dependent third in quick) and the machine's /usr/share/zoneinfo when present (right/ and posix/ excluded), plus synthetic v1/v2/v3 files (0–60 transitions, 1–8 types, footers fixed / M / J / n rules, either hemisphere, negative DST, /time incl. the v3 extended range, footer consistent with the last transition, switch-overs > 8 days apart and from 1 January). timestamps per file: every transition −1/0/+1 s, the footer's switch instants ±1 s and year starts for 16 years in 1900–2499 incl. leap years and Feb 28–Mar 1, random in 1900–2500. Oracle: tzif_ref (RFC 8536 + POSIX TZ evaluator, cross-checked against CPython zoneinfo on this run's own lookups by tools/tz_crosscheck.py) — offset of the latest transition ≤ t, footer rule from the last transition on. A tenth of the corpus and a sample of synthetic files also go end-to-end through Offset::Local.resolve() with /etc/localtime and the clock redirected by the hooks. Interleaved: 2–4 zones (one synthetic table as a v1 file and as a v2/v3 file with footer, plus unrelated zones) parsed side by side, their lookups shuffled into one sequence on one thread — the answer for (zone, timestamp) may not depend on what was asked before. Not claimed: timestamps before the first transition, empty footers, leap-second files, version 4. Non-trivial = every judged file; distinct by hash of the bytes. (Interleaved workload described above.)",
+        "files: the vendored IANA corpus ({} fat + slim files, de-duplicated; a seed-dependent third in quick) and the machine's /usr/share/zoneinfo when present (right/ and posix/ excluded), plus synthetic v1/v2/v3 files (0–60 transitions, 1–8 types, footers fixed / M / J / n rules, either hemisphere, negative DST, /time incl. the v3 extended range, footer consistent with the last transition, switch-overs > 8 days apart and from 1 January). timestamps per file: every transition −1/0/+1 s, the footer's switch instants ±1 s and year starts for 16 years in 1900–2499 incl. leap years and Feb 28–Mar 1, random in 1900–2500. Oracle: tzif_ref (RFC 8536 + POSIX TZ evaluator, cross-checked against CPython zoneinfo on this run's own lookups by tools/tz_crosscheck.py) — offset of the latest transition ≤ t, footer rule from the last transition on. A tenth of the corpus and a sample of synthetic files also go end-to-end through Offset::Local.resolve() with /etc/localtime and the clock redirected by the hooks. Interleaved: 2–4 zones (one synthetic table as a v1 file and as a v2/v3 file with footer, plus unrelated zones) parsed side by side, their lookups shuffled into one sequence on one thread — the answer for (zone, timestamp) may not depend on what was asked before. Not claimed: timestamps before the first transition, empty footers, leap-second files, version 4. Non-trivial = every judged file; distinct by hash of the bytes. (Interleaved workload described above.) 32-bit time_t limits (±2^31, 2^32) ±1 s/±1 day are probed in every file; v3 rule times incl. negative sub-hour ones (-0:30, -0:00:59); two well-formed files of 9 000 and 17 000 transitions (> 64 KiB, > 128 KiB) through the byte entry point and, installed as /etc/localtime, through Offset::Local.",
         files.iter().filter(|(n, _)| !n.starts_with("system/")).count()
     );
     meta.required_bins = vec![
